@@ -347,39 +347,96 @@ func Solve(query string, timeoutS int, seed int, only []string) SolverResult {
 		}
 		use = append(use, b)
 	}
-	ch := make(chan res, len(use))
+	// secondary variants (other seeds, a pre-simplifying tactic) are started if the primary set has not answered
+	// within two seconds: nonlinear obligations are very sensitive to the seed, a small portfolio makes them stable
+	type variant struct {
+		name string
+		argv []string
+	}
+	var primary, secondary []variant
 	for _, b := range use {
-		b := b
+		primary = append(primary, variant{b.name, b.argv(file, timeoutS, seed)})
+	}
+	if len(only) == 0 {
+		for k := 1; k <= 3; k++ {
+			secondary = append(secondary, variant{fmt.Sprintf("z3-5.1.0/seed+%d", k), backends[0].argv(file, timeoutS, seed+k)})
+		}
+		tfile := file + ".tactic.smt2"
+		tq := strings.Replace(query, "(check-sat)", "(check-sat-using (then simplify propagate-values solve-eqs smt))", 1)
+		if tq != query && !strings.Contains(query, "(get-value") {
+			if os.WriteFile(tfile, []byte(tq), 0o644) == nil {
+				defer os.Remove(tfile)
+				secondary = append(secondary, variant{"z3-5.1.0/tactic", backends[0].argv(tfile, timeoutS, seed)})
+			}
+		} else if tq != query {
+			// with get-value the tactic form still answers check-sat; models are only read from a "sat" of any variant
+			if os.WriteFile(tfile, []byte(tq), 0o644) == nil {
+				defer os.Remove(tfile)
+				secondary = append(secondary, variant{"z3-5.1.0/tactic", backends[0].argv(tfile, timeoutS, seed)})
+			}
+		}
+	}
+	ch := make(chan res, len(primary)+len(secondary))
+	launch := func(v variant) {
 		go func() {
-			argv := b.argv(file, timeoutS, seed)
 			start := time.Now()
-			c := exec.CommandContext(ctx, argv[0], argv[1:]...)
+			c := exec.CommandContext(ctx, v.argv[0], v.argv[1:]...)
 			var out bytes.Buffer
 			c.Stdout = &out
 			c.Stderr = &out
 			_ = c.Run()
-			ch <- res{b.name, out.String(), time.Since(start).Seconds()}
+			ch <- res{v.name, out.String(), time.Since(start).Seconds()}
 		}()
+	}
+	for _, v := range primary {
+		launch(v)
 	}
 	all := map[string]string{}
 	final := SolverResult{Answer: Unknown, All: all}
-	for range use {
-		r := <-ch
+	pending := len(primary)
+	timer := time.NewTimer(2 * time.Second)
+	defer timer.Stop()
+	started := false
+	t0 := time.Now()
+	for pending > 0 {
+		var r res
+		select {
+		case r = <-ch:
+			pending--
+		case <-timer.C:
+			if !started {
+				started = true
+				for _, v := range secondary {
+					launch(v)
+					pending++
+				}
+			}
+			continue
+		}
 		first := firstLine(r.out)
 		all[r.name] = truncate(r.out, 400)
+		total := time.Since(t0).Seconds()
 		switch first {
 		case "unsat":
-			return SolverResult{Answer: Unsat, Backend: r.name, Seconds: r.secs, Output: truncate(r.out, 2000), All: all}
+			return SolverResult{Answer: Unsat, Backend: r.name, Seconds: total, Output: truncate(r.out, 2000), All: all}
 		case "sat":
 			rest := ""
 			if i := strings.Index(r.out, "\n"); i >= 0 {
 				rest = r.out[i+1:]
 			}
-			return SolverResult{Answer: Sat, Backend: r.name, Seconds: r.secs, Output: truncate(r.out, 20000), Model: rest, All: all}
+			return SolverResult{Answer: Sat, Backend: r.name, Seconds: total, Output: truncate(r.out, 20000), Model: rest, All: all}
 		default:
 			final.Backend = r.name
-			final.Seconds = r.secs
+			final.Seconds = total
 			final.Output = truncate(r.out, 2000)
+		}
+		if pending == 0 && !started && len(secondary) > 0 {
+			// everything answered "unknown" quickly: still give the secondary variants a chance
+			started = true
+			for _, v := range secondary {
+				launch(v)
+				pending++
+			}
 		}
 	}
 	return final
